@@ -271,7 +271,12 @@ class World:
                     mf = os.path.join(h.dir, "m%d" % started)
                     ef = os.path.join(h.dir, "e%d" % started)
                     open(mf, "wb").write(m["body"].encode("latin-1"))
-                    open(ef, "wb").write(b"F" + m["sender"].encode("latin-1") + b"\0" + b"".join(b"T" + r.encode("latin-1") + b"\0" for r in m["rcpts"]) + b"\0")
+                    envb = b"F" + m["sender"].encode("latin-1") + b"\0" + b"".join(b"T" + r.encode("latin-1") + b"\0" for r in m["rcpts"]) + b"\0"
+                    if m.get("bad_env") == "cut":
+                        envb = envb[:-1]            # no terminator: qmail-queue backs out through cleanup() and exits 54
+                    elif m.get("bad_env") == "letter":
+                        envb = envb[:-1] + b"X\0"  # wrong record letter: exit 91, files left for the garbage collection
+                    open(ef, "wb").write(envb)
                     env_i = h.env(role="inj%d" % started, uid=4242, trace=True, **senv)
                     p = subprocess.Popen([self.tree.path("qmail-queue")], stdin=open(mf, "rb"), stdout=open(ef, "rb"), stderr=subprocess.DEVNULL,
                                          env=env_i, cwd="/", start_new_session=True)
@@ -403,7 +408,7 @@ class World:
                 rc = p.wait(timeout=10)
             except subprocess.TimeoutExpired:
                 return None
-            if rc != 0 and not crashed:
+            if rc != 0 and not crashed and not any(m.get("bad_env") for m in sc["messages"]):
                 return "injector exited %r" % rc
         snap, bad, pids = h.snapshot()
         v = self.check_post(snap, bad)
@@ -413,8 +418,8 @@ class World:
         for n, s in snap.items():
             lo = left.get(n)
             if lo is None:
-                if crashed and s <= {"mess", "intd"}:
-                    continue          # leftover of an injector that died in the crash: legitimately stays until ossified
+                if (crashed or any(m.get("bad_env") for m in sc["messages"])) and s <= {"mess", "intd"}:
+                    continue          # leftover of an injector that died / backed out: legitimately stays until ossified
                 return "message %d is still in the queue in state %r after all deliveries were answered" % (n, sorted(s))
             if lo["kind"] in ("S2", "S3") and lo["age"] > self.ossified + 60 and not crashed:
                 return "leftover %d (%s, %d s old) was not collected although it is older than 36 hours" % (n, lo["kind"], lo["age"])
@@ -436,6 +441,8 @@ def scenario(draw):
         msgs.append({"sender": draw(st.sampled_from(["s@rem.example", "", "#@[]"])),
                      "rcpts": [draw(st.sampled_from(["u@loc.example", "r@rem.example", "v@loc.example"])) for _ in range(nr)],
                      "body": draw(st.sampled_from(["x\n", "Subject: t\n\nbody\n", ""]))})
+        if draw(st.integers(0, 5)) == 0:
+            msgs[-1]["bad_env"] = draw(st.sampled_from(["cut", "letter"]))
     sc = {"messages": msgs, "script": draw(st.sampled_from(["K", "K", "KD", "D", "DK"])),
           "tape": draw(st.lists(st.integers(0, 999), min_size=20, max_size=400))}
     if draw(st.integers(0, 2)) == 0:
@@ -520,6 +527,8 @@ def worker_dfs(job):
 # executed in every run: a backlog of queued-but-not-preprocessed messages older than 36 hours whose numbers land in mess/0, so the
 # garbage-collection sweep reaches them before the todo scan does (daemon restarted after a long outage)
 FIXED = [
+    {"messages": [{"sender": "s@rem.example", "rcpts": ["u@loc.example"], "body": "x\n", "bad_env": "cut"},
+                  {"sender": "s@rem.example", "rcpts": ["u@loc.example"], "body": "y\n"}], "script": "K", "tape": [4, 4, 1, 0, 2, 1, 0, 1] * 20},
     {"messages": [{"sender": "s@rem.example", "rcpts": ["u@loc.example"], "body": "x\n"}], "script": "K", "tape": [],
      "leftovers": [{"kind": "S4", "age": OSSIFIED + 3600, "dir0": True} for _ in range(6)]},
     {"messages": [], "script": "K", "tape": [],
